@@ -1,5 +1,5 @@
 (* Proofs/SpanEx.v — non-vacuity: concrete instances of the C16 hypothesis sets. *)
-From GV Require Import Lib.Bytes Lib.Res Lib.Heap Gen.Consts Model.Binary Model.Unsafex Model.BufReader Model.Span Spec.Indep Proofs.SpanHeap Proofs.SpanP Proofs.SpanThm.
+From GV Require Import Lib.Bytes Lib.Res Lib.Heap Gen.Consts Model.Binary Model.Unsafex Model.BufReader Model.Span Spec.Indep Proofs.SpanHeap Proofs.SpanP Proofs.SpanThm Proofs.SpanHist.
 From Coq Require Import ZifyN ZifyNat ZifyBool Lia.
 Open Scope N_scope.
 
@@ -81,3 +81,35 @@ Lemma ex_stream :
                                               schunks := [2; 1]; spos := 0 |}) [5; 5; 5; 5]
       = (st', Ok (h', b, None)) /\ slice_bytes h' b = [9; 8; 7] /\ sptr b = Some (1%nat, 0).
 Proof. do 3 eexists. split; [vm_compute; reflexivity|]. split; vm_compute; reflexivity. Qed.
+
+(* a good initial state of a history: the caller owns the input block, nothing decoded yet *)
+Definition ex_state : hstate :=
+  {| hs_h := ex_heap; hs_c := ex_cache;
+     hs_own := [({| r_blk := 11%nat; r_off := 0; r_ext := 209 |}, ex_input)]; hs_lvs := [] |}.
+
+Lemma ex_good : good 0 ex_state.
+Proof.
+  unfold good, ex_state. cbn [hs_h hs_c hs_own hs_lvs].
+  split; [exact ex_hinv|]. split; [exact ex_static|]. split.
+  - constructor; [|constructor]. unfold own_ok. cbn [fst snd]. split; [|split; [|split]].
+    + split; [vm_compute; lia|]. vm_compute. discriminate.
+    + unfold allocd. apply Forall_forall. intros sp Hin. left. unfold ex_cache in Hin.
+      cbn [In] in Hin. cbn [r_blk].
+      repeat (destruct Hin as [<-|Hin]; [cbn [s_blk]; lia|]). contradiction.
+    + left. cbn. lia.
+    + vm_compute. reflexivity.
+  - split; [constructor|]. split.
+    + intros i j a b _ Ha. destruct i; discriminate.
+    + intros lv ow [].
+Qed.
+
+(* ... and a step from it: the 200-byte value decoded with the span cache on *)
+Lemma ex_step : exists s', hstep 0 ex_state s' /\ length (hs_lvs s') = 1%nat.
+Proof.
+  destruct ex_decodes as [_ [h' [c' [b [E [Hb [Hp Hc]]]]]]].
+  destruct ex_in_valid as [_ [V2 [_ [I2 _]]]].
+  eexists. split.
+  - eapply (hs_binary 0 ex_state true ex_in2 false 0 [] h' c' b 204); try eassumption.
+    unfold slice_region. rewrite Hp. reflexivity.
+  - reflexivity.
+Qed.
